@@ -1,7 +1,10 @@
 """C03 — verification decides exactly as the specification (strict decoding, bounds), six sets."""
+import json, os
 from vcore import Case
-from dlib import Q, Par, ALL, API_OF, keygen, sign, bitpack, hint_pack, decode_sig, cmod
+from dlib import Q, Par, ALL, API_OF, keygen, sign, bitpack, hint_pack, decode_sig, cmod, crate
 import pyref
+
+CORPUS = os.path.join(os.path.dirname(os.path.dirname(os.path.dirname(os.path.abspath(__file__)))), "corpus", "c03_exact_omega.json")
 
 RULE = ("for each set: genuine signatures (crate signer and the independent Python signer, incl. hedged with arbitrary rnd); every structural mutation "
         "of the hint section (swapped/duplicate indices, counters +-1, > omega, < previous, dirty padding), which for swaps/padding are hash-consistent "
@@ -90,7 +93,51 @@ def gen(tier, rng):
     jobs = [(tier, rng.getrandbits(64), cp) for cp in ALL]
     with ProcessPoolExecutor(max_workers=6) as ex:
         parts = list(ex.map(_gen_set, jobs))
-    return [c for part in parts for c in part]
+    out = [c for part in parts for c in part]
+    # committed corpus: specification-valid signatures with exactly omega hints (the accept side of the hint-count boundary)
+    if os.path.exists(CORPUS):
+        seen = set()
+        for e in json.load(open(CORPUS)):
+            tags = ["in_domain", "boundary", "exactly-omega-hints", "corpus"]
+            if e["set"] in seen:
+                tags.append("crate-only")
+            seen.add(e["set"])
+            out.append(Case("verify", e["set"], [bytes.fromhex(e["sig"]), bytes.fromhex(e["msg"]), bytes.fromhex(e["pk"])], tags))
+    return out
+
+
+def extra(rep, cov, tier, rng):
+    """Live search with the crate's own signer for a signature with exactly omega hints; the independent verifier and the
+    crate (both builds) must accept it."""
+    n = 1500 if tier == "quick" else 40000
+    calls = [("hint_weight_search", cp, [bytes(rng.randrange(256) for _ in range(32)), n, Par(cp).omega]) for cp in ALL]
+    from concurrent.futures import ThreadPoolExecutor
+    with ThreadPoolExecutor(max_workers=6) as ex:
+        res = list(ex.map(lambda c: crate([c])[0], calls))
+    found = {}
+    for cl, r in zip(calls, res):
+        cp = cl[1]; p = Par(cp)
+        if r is None:
+            rep.violation("signing panicked during the exactly-omega search (%s)" % cp,
+                          {"cases": [{"fn": cl[0], "copy": cp, "args": ["x" + cl[2][0].hex(), str(n), str(p.omega)]}]}, True)
+            continue
+        idx, maxw, pk, sig = r
+        found[cp] = {"found_at": idx, "max_hint_weight_seen": maxw, "omega": p.omega, "searched": n if idx < 0 else idx + 1}
+        if idx < 0:
+            continue
+        msg = int(idx).to_bytes(4, "little")
+        exp = pyref.verify(p, pk, msg, sig)
+        got = [crate([("verify", cp, [sig, msg, pk])], dev=d)[0] for d in (True, False)]
+        cov["evaluations"] = cov.get("evaluations", 0) + 2
+        cov["distinct_nontrivial"] = cov.get("distinct_nontrivial", 0) + 1
+        if not exp:
+            rep.violation("the crate's signer emitted a signature with %d hints that the specification's Verify rejects (%s)" % (p.omega, cp),
+                          {"cases": [{"fn": "verify", "copy": cp, "args": ["x" + sig.hex(), "x" + msg.hex(), "x" + pk.hex()]}]}, True)
+        elif any(g is None or g[0] != 1 for g in got):
+            rep.violation("verify/%s rejects a specification-valid signature with exactly omega = %d hints (key seed %s, message %s)"
+                          % (cp, p.omega, cl[2][0].hex(), msg.hex()),
+                          {"cases": [{"fn": "verify", "copy": cp, "args": ["x" + sig.hex(), "x" + msg.hex(), "x" + pk.hex()]}]}, True)
+    cov["exactly_omega_live_search"] = found
 
 
 def _gen_set(job):
@@ -129,6 +176,13 @@ def _gen_set(job):
         zbig = sign_skip_znorm(p, sk, msgs[1])
         if zbig is not None:
             add(zbig, msgs[1], pk, ["near-miss", "z-norm"], True)
+        # hash-consistent near-misses from a modified signer: one byte of the commitment hash altered before the challenge is
+        # sampled; the verifier recomputes the unaltered hash, so every byte of c~ must take part in the comparison
+        for j, idx in enumerate(sorted({0, p.ct // 2, 31, 32 % p.ct, p.ct - 1})):
+            mm = bytes(rng.randrange(256) for _ in range(20))
+            nm = pyref.sign(p, sk, mm, ct_tweak=(idx, 1 << rng.randrange(8)))
+            if nm is not None:
+                add(nm, mm, pk, ["near-miss", "ctilde-byte-%d-of-%d" % (idx, p.ct)], idx == p.ct - 1)
         # exactly at the bound, both signs (the strict comparison and the branch-free |.| matter only here)
         for sgn, tag in ((1, "z-exactly-at-bound-pos"), (-1, "z-exactly-at-bound-neg")):
             for t in range(40 if tier == "quick" else 400):
